@@ -17,7 +17,7 @@ ASSUMPTIONS = ["'delivered' = put on the wire by the writer at a time >= source 
                "the k-th successful write has sequence number k; its source timestamp is the `ts=` argument or the clock at the call",
                "faults only on ACKNACK datagrams (held, released) and DATA datagrams (dropped)"]
 CORPUS = [
-    # D34 (DESIGN 7.1): lifespan 1 s, DATA lost, the NACK is handled at +1.05 s before the overdue worker iteration: DATA(sn=1) re-sent 50 ms after expiry
+    # D34 (DESIGN 7.1, repaired): lifespan 1 s, DATA lost, the NACK is handled at +1.05 s before the overdue worker iteration: was DATA(sn=1) 50 ms after expiry, now a GAP
     TEMPLATE + ["writer w pub t1 reliability=reliable history=keep_all lifespan=1000000000",
                 "reader r sub t2 reliability=reliable history=keep_all", "trace on", "drop-next 1 DATA user",
                 "now", "write w 1 10", "now", "advance 150000000", "now", "hold ACKNACK user", "advance 100000000", "now",
@@ -62,17 +62,18 @@ def run(ctx):
                 ctx.count(t[0])
 
 
-LEVEL_TEXT = ("Kernel-checked Lean theorems over ALL states and event lists of the writer model: everything one worker iteration sends - first "
-              "transmission of a parked write, history for a reader matched since the last iteration, repairs, heartbeat-driven resends - carries "
-              "unexpired changes, for every state and clock value (C29_tick_sends_fresh); handling a write or an ACKNACK at a time at which no stored "
-              "change has expired sends only unexpired changes and keeps the history fresh (C29_step_sends_fresh); hence no expired change is ever sent "
-              "along any event list in which no mail is handled at or after the expiry of a stored change before the worker iteration of that instant "
-              "(C29_no_expired_send_partial); a sample already expired when written is neither stored nor sent (C29_expired_at_write_not_sent). The "
-              "unconditional statement is FALSE for the code as it is: an ACKNACK handled when the worker's timer is late is answered from the history "
-              "before remove_stale_writer_samples runs (D34; Lean witness C29_no_expired_send_counterexample, replayed on the real stack with the dsim "
-              "extension `late-release`: DATA re-sent 50 ms after its expiry and presented by the reader). The model is tied to the real code by dsim "
-              "scenarios whose every answer and complete datagram trace is predicted by the compiled model; the oracle re-checks every DATA emission "
-              "time against source timestamp + lifespan on the implementation's trace alone.")
+LEVEL_TEXT = ("Kernel-checked Lean theorems over ALL states and event lists of the writer model (worker of /repo main: remove_stale_writer_samples "
+              "runs before every mail and in every iteration): NO event list - whatever the writes, ACKNACKs, reader matches, worker iterations and "
+              "their times, late timers included - makes the writer send a change whose source timestamp + lifespan lies at or before the time of "
+              "sending (C29_no_expired_send), because every single step sends only unexpired changes and leaves the history fresh, for every state and "
+              "clock value (C29_step_sends_fresh, C29_tick_sends_fresh: first transmission of a parked write, repair after a NACK, history for a late "
+              "joiner); a sample already expired when written is neither stored nor sent (C29_expired_at_write_not_sent). The defect D34 found by this "
+              "check (an ACKNACK handled while the worker's timer is late was answered from the history before the purge: DATA re-sent 50 ms after its "
+              "expiry and presented by the reader) is repaired in /repo; its pre-fix behaviour is kept as Lean regression witness "
+              "(C29_no_expired_send_asis_counterexample on `stepAsIs`, with the theorem that held before, C29_no_expired_send_asis_partial). The model "
+              "is tied to the real code by dsim scenarios whose every answer and complete datagram trace is predicted by the compiled model (late-timer "
+              "situations are produced with the dsim op `late-release`); the oracle re-checks every DATA emission time against source timestamp + "
+              "lifespan on the implementation's trace alone.")
 LEVEL_NOTE = ("Trusted: Lean kernel; Model/WriterEnt.lean and Model/WrtWorld.lean (the latter only selects the event list of a scenario); the dsim simulator, "
               "its scenario interpreter and the extension op `late-release` (clock jumps, held datagrams are delivered before the overdue timers fire); "
               "canonicaliser and oracle in vlib/wrt_common.py. Not covered: a datagram delayed in the network past the expiry is accepted by the reader "
@@ -80,4 +81,3 @@ LEVEL_NOTE = ("Trusted: Lean kernel; Model/WriterEnt.lean and Model/WrtWorld.lea
 TECHNIQUE = "Lean 4 per-step / run theorems with a freshness invariant over all event lists of the writer model + differential correspondence in the deterministic simulator dsim (late-timer directive)"
 DESIGN_REF = "DESIGN.md section 5 C29"
 LEAN_MODULES = ["DustVerif.Props.C29"]
-CLAIMED = False   # being re-synchronised with the RTPS repairs now in /repo (model predicts full datagram traces)
